@@ -7,6 +7,7 @@ import (
 	"regexp"
 	"strings"
 	"sync"
+	"time"
 
 	"verifharness/core"
 )
@@ -73,6 +74,8 @@ func (P) Generate(g *core.Gen) {
 
 const parReps = 12
 
+const parTimeout = 60 * time.Second
+
 var parPool = map[string][]string{}
 
 var bigSeq = regexp.MustCompile(`\*\d{4,}x`)
@@ -125,6 +128,7 @@ func execPar(line string) string {
 	subs := strings.Split(strings.TrimPrefix(line, "C20 par "), " ;; ")
 	outs := make([]string, len(subs))
 	var start, done sync.WaitGroup
+	var mu sync.Mutex
 	start.Add(1)
 	for i := range subs {
 		done.Add(1)
@@ -142,12 +146,31 @@ func execPar(line string) string {
 					break
 				}
 			}
+			mu.Lock()
 			outs[i] = first
+			mu.Unlock()
 		}(i)
 	}
 	start.Done()
-	done.Wait()
-	return strings.Join(outs, " ;; ")
+	// a data race can send an instance into an astronomically long loop (e.g. a corrupted delta written
+	// in unary): do not wait for ever, answer "timeout" for whatever has not finished
+	fin := make(chan struct{})
+	go func() { done.Wait(); close(fin) }()
+	select {
+	case <-fin:
+		return strings.Join(outs, " ;; ")
+	case <-time.After(parTimeout):
+	}
+	mu.Lock()
+	defer mu.Unlock()
+	res := make([]string, len(outs))
+	for i, o := range outs {
+		if o == "" {
+			o = "timeout"
+		}
+		res[i] = o
+	}
+	return strings.Join(res, " ;; ")
 }
 
 func genPar(g *core.Gen) {
